@@ -1301,7 +1301,16 @@ fn gen_kids(r: &mut Rng, c: &mut Ctx, depth: usize, anc: &mut Vec<&'static str>,
             10 => {
                 let tag = pk(r, RAWS);
                 let attrs = gen_attrs(r, c, false);
-                let kids: Vec<Node> = if c.raw_text {
+                let kids: Vec<Node> = if c.raw_text && tag == "textarea" && r.chance(2, 3) {
+                    // the usual shape: one string as the initial value (sometimes starting with a line feed)
+                    let mut t = gen_text(r, c);
+                    if r.chance(1, 6) {
+                        if let Node::Text { s, .. } = &mut t {
+                            s.insert(0, '\n');
+                        }
+                    }
+                    vec![t]
+                } else if c.raw_text {
                     (0..r.range(1, 2))
                         .map(|_| match r.below(4) {
                             0 => gen_cont(r, c, 0, anc, true),
@@ -1423,6 +1432,9 @@ fn small_scope() -> Vec<String> {
         p(vec![el("div", vec![], vec![c('V', '*', vec![c('O', 'S', vec![t()]), c('Y', 's', vec![t(), t()]), el("i", vec![], vec![c('W', 'a', vec![t()])]), Node::Unit])])]);
         p(vec![c('V', 'S', vec![t(), t()]), t(), c('U', 'S', vec![t()])]);
         p(vec![el("textarea", vec![], vec![c('V', 'S', vec![t()])])]);
+        p(vec![el("textarea", vec![], vec![Node::text(&format!("\n{s}"))])]);
+        p(vec![el("textarea", vec![], vec![t(), t()])]);
+        p(vec![el("textarea", vec![Attr::Plain("name".into(), s.clone(), Ty::string())], vec![tt("Arc")]), t()]);
         p(vec![el("script", vec![], vec![c('O', 'S', vec![t()])])]);
         // a single character: `char` as child, as attribute value, in containers
         let mut cs = s.chars();
